@@ -807,6 +807,13 @@ func runDisputeHistory(t *testing.T, seed int64) (string, map[string]int, string
 		block(time.Duration(1+r.Intn(5))*time.Second, func() {
 			if round == 1 {
 				propose(first, fromBond)
+				if first.Cmp(full) < 0 && r.Intn(3) == 0 {
+					// the payer asks for its fee back while the dispute still waits for the rest of the fee (refused)
+					do("WithdrawFeeRefund", proposer, nil, func(ctx sdk.Context) error {
+						_, err := w.disputeMS.WithdrawFeeRefund(ctx, &disputetypes.MsgWithdrawFeeRefund{CallerAddress: w.accts[proposer].String(), PayerAddress: w.accts[proposer].String(), Id: id})
+						return err
+					})
+				}
 				if first.Cmp(full) < 0 && (mixedPay || r.Intn(4) != 0) {
 					payer := pick(r, proposer, nVals+3)
 					if mixedPay {
